@@ -8,6 +8,7 @@ func init() {
 	vHarnesses["VH_C07_budget"] = VH_C07_budget
 	vHarnesses["VH_C07_count"] = VH_C07_count
 	vHarnesses["VH_C07_cap"] = VH_C07_cap
+	vHarnesses["VH_C07_exact"] = VH_C07_exact
 }
 
 // adversarial programs: each must return (error or value) after work
@@ -101,11 +102,11 @@ func VH_C07_count() {
 	vAssert(int(vm.NumOpCount) >= vm.codeIndex-1+vDrawCount(), "counter-covers-every-die")
 }
 
-//vh:prop=C07 tiers=quick,thorough sigkeys=kind,n maxsteps=600000000 maxdepth=100000 budget_s=1500 bounds="capacity boundaries as concrete programs: sums of n terms around the 8192-instruction limit (n = 4094..4098) at top level, inside a function body and inside a computed value, array literals and ranges of 511..513 elements, concatenation and repetition across 512, operand stack across 1000 (array literals of 997..1001 elements), parse budget 10/100 on short programs: each is either evaluated completely (the value is the full program's value) or rejected with an error - never a value from a truncated program"
+//vh:prop=C07 tiers=quick,thorough sigkeys=kind,n maxsteps=1200000000 maxdepth=100000 budget_s=2400 thorough:P.ondemand=1 bounds="capacity boundaries as concrete programs: sums of n terms around the 8192-instruction limit (n = 4094..4098) at top level, inside a function body, inside a computed value, and as source compiled on demand (host-built computed / function values, a JSON-decoded computed value, the default-sides expression, RunExpr) evaluated twice through the same value (quick: the two computed-value forms just over the limit), array literals and ranges of 511..513 elements, concatenation and repetition across 512, operand stack across 1000 (array literals of 997..1001 elements), parse budget 10/100 on short programs: each is either evaluated completely (the value is the full program's value) or rejected with an error - never a value from a truncated program"
 func VH_C07_cap() {
 	kind := vParam("kind", -1)
 	if kind < 0 {
-		kind = vChoice("kind", 9)
+		kind = vChoice("kind", 14)
 	}
 	vm := vNewVM()
 	vm.Config.OpCountLimit = 10000000
@@ -170,6 +171,42 @@ func VH_C07_cap() {
 			v, ok := vm.Ret.ReadInt()
 			vAssert(ok && int(v) == n+1, "long-computed-body-complete-or-rejected")
 		}
+	case 9, 10, 11, 12, 13: // code size of source that is compiled on demand, evaluated repeatedly through the same value
+		n := 4097 // over the limit; thorough also 4095 (fits) and 4096
+		if vParam("ondemand", 0) == 1 {
+			n = 4095 + vChoice("n", 3)
+		} else if kind != 9 && kind != 13 {
+			return // quick: the computed-value forms only (each evaluation parses 8 k characters)
+		}
+		long := "1" + strings.Repeat("+1", n)
+		run := func() (*VMValue, error) { err := vm.Run("v1"); return vm.Ret, err }
+		switch kind {
+		case 9:
+			vm.Attrs.Store("v1", NewComputedVal(long))
+		case 10:
+			vm.Attrs.Store("fn2", NewFunctionValRaw(&FunctionData{Expr: long, Name: "fn2"}))
+			run = func() (*VMValue, error) { err := vm.Run("fn2()"); return vm.Ret, err }
+		case 11:
+			vm.Config.DefaultDiceSideExpr = long
+			vm.Config.DiceMaxMode = true
+			run = func() (*VMValue, error) { err := vm.Run("d"); return vm.Ret, err }
+		case 12:
+			run = func() (*VMValue, error) { return vm.RunExpr(long, false) }
+		case 13:
+			v, err := VMValueFromJSON([]byte(`{"t":5,"v":{"expr":"` + long + `"}}`))
+			vAssert(err == nil && v != nil, "computed-value-document-decodes")
+			if err != nil || v == nil {
+				return
+			}
+			vm.Attrs.Store("v1", v)
+		}
+		for round := 0; round < 2; round++ {
+			v, err := run()
+			if err == nil {
+				iv, ok := v.ReadInt()
+				vAssert(ok && int(iv) == n+1, "long-on-demand-body-complete-or-rejected")
+			}
+		}
 	case 6: // parse budget
 		vm.Config.ParseExprLimit = []uint64{10, 100, 1000}[vChoice("n", 3)]
 		err := vm.Run("1+2+3+4")
@@ -179,4 +216,60 @@ func VH_C07_cap() {
 		}
 	}
 	vReach("returned")
+}
+
+// programs of known finite cost: (source, nesting depth of script calls)
+var vC07ExactProgs = []struct {
+	src   string
+	depth int
+}{
+	{"1 + 2 * 3 - 4", 0},
+	{"i = 0; while i < 6 { i = i + 1 }; i", 0},
+	{"3d6 + 2d20kh1 + d100", 0},
+	{"func fn1(n) { return n * 2 }; fn1(3) + fn1(4)", 1},
+	{"&v1 = 2d6 + 1; v1 + v1", 1},
+	{"func fn1(n) { if n > 0 { return fn1(n - 1) + 1 }; return 0 }; fn1(3)", 4},
+	{"func fn1() { &v2 = 3d1; return v2 + v2 }; fn1() + 1", 2},
+	{"[1,2,3].sum() + [4,5].len()", 0},
+	{"`a{1 + 1}b{% x = 2; x * 2 %}`", 0},
+	{"i = 0; s = 0; while i < 3 { i = i + 1; j = 0; while j < 2 { j = j + 1; s = s + d6 } }; s", 0},
+	{"2a10 + 3c8 + f + b1", 0},
+	{"x = {'a': [1, 2]}; x.a[1] + x.a.len()", 0},
+}
+
+//vh:prop=C07 tiers=quick,thorough sigkeys=prog budget_s=1200 unwind=4000 unwind_ok=1 bounds="12 programs of finite cost K (measured by an unlimited run: 7..200 operations; arithmetic, loops, dice of every family in min mode, functions, recursion 4 deep, computed values, templates, containers) re-run with the operation budget L a 64-bit symbol in [1, K + 100*(call depth) + 2]: for every L the run either fails with an error - only if L < K + 100*(call depth), the transient surcharge of nested calls - or succeeds - only if L >= K - with exactly the value of the unlimited run and never a different (partial) one"
+func VH_C07_exact() {
+	k := vChoice("prog", len(vC07ExactProgs))
+	pr := vC07ExactProgs[k]
+	mk := func() *Context {
+		vm := vNewVM()
+		vm.Config.DiceMinMode = true
+		vm.Config.EnableDiceWoD, vm.Config.EnableDiceCoC, vm.Config.EnableDiceFate, vm.Config.EnableDiceDoubleCross = true, true, true, true
+		return vm
+	}
+	ref := mk()
+	ref.Config.OpCountLimit = 0
+	err0 := ref.Run(pr.src)
+	vAssert(err0 == nil, "program-evaluates-without-budget")
+	if err0 != nil {
+		return
+	}
+	cost := int64(ref.NumOpCount)
+	want := ref.Ret.ToRepr()
+	vAssert(cost >= 1, "work-is-counted")
+	slack := int64(100 * pr.depth)
+	lim := vInt64("limit")
+	vAssume(lim >= 1)
+	vAssume(lim <= cost+slack+2)
+	vm := mk()
+	vm.Config.OpCountLimit = IntType(lim)
+	err := vm.Run(pr.src)
+	vReach("ran")
+	if err != nil {
+		vAssert(lim < cost+slack, "a-budget-that-covers-the-work-is-not-refused")
+		return
+	}
+	vAssert(lim >= cost, "work-beyond-the-budget-fails")
+	vAssert(vm.Ret != nil && vm.Ret.ToRepr() == want, "value-under-a-budget-is-the-complete-value")
+	vAssert(int64(vm.NumOpCount) == cost, "same-work-counted")
 }
